@@ -125,7 +125,7 @@ def discharge_all(obls: List[Obligation], want_smt2: bool = False) -> List[Dict]
     import tempfile
 
     n = len(obls)
-    K = min(INNER_JOBS, max(1, n // 6))
+    K = min(INNER_JOBS, max(1, (n + 2) // 3))
     if K <= 1:
         return [rec for _i, rec in discharge_batch(obls, list(range(n)), want_smt2)]
     tmp = tempfile.mkdtemp(prefix="pyvc_")
